@@ -282,7 +282,18 @@ func genConfineOps(r *RNG, tree []Entry) []Op {
 			ops = append(ops, g.Gen(r, all))
 		}
 	}
-	return ops
+	// a relative target climbs at most three levels: the case directory lies three levels below the
+	// temp directory (the model's disk root), and a link may be relocated to the top of the prefix —
+	// anything climbing higher would leave the temp directory on the real side (into the shared
+	// /tmp, where earlier cases may have left files) and stay at the root in the model
+	var kept []Op
+	for _, op := range ops {
+		if op.K == "symlink" && strings.Count(op.A[0], "..") > 3 {
+			continue
+		}
+		kept = append(kept, op)
+	}
+	return kept
 }
 
 // confineSentinels: entries outside the prefix, on both sides.
